@@ -288,6 +288,7 @@ class TxInfo:
 
 XCHECK: dict = {}
 XCHECK_DONE = [0, 0]  # answers cross-checked, of which true
+XCHECK_SAMPLE = [1]
 
 
 def cross_check_oracle():
@@ -297,6 +298,9 @@ def cross_check_oracle():
         return
     items = list(XCHECK.items())
     XCHECK.clear()
+    if XCHECK_SAMPLE[0] > 1:
+        # quick tier: every `true` answer and every k-th `false` one (all of them in the thorough tier)
+        items = [kv for i, kv in enumerate(items) if kv[1] or i % XCHECK_SAMPLE[0] == 0]
     outs = lib.run_driver(["spec_checksig %s %s %s" % (hx(k[0]), hx(k[1]), hx(k[2])) for k, _ in items])
     for (k, v), o in zip(items, outs):
         if o != "ok %d" % (1 if v else 0):
@@ -321,13 +325,14 @@ def parse_stack(s: str):
 class Case:
     """one evaluation: kind 'eval' (single script) or 'verify' (VerifyScript)"""
 
-    __slots__ = ("kind", "flags", "a", "ctx", "sv", "table", "info", "spec", "tag")
+    __slots__ = ("kind", "flags", "a", "ctx", "sv", "table", "info", "spec", "tag", "hints")
 
     def __init__(self, kind, flags, a, ctx, sv="0", tag=""):
         self.kind, self.flags, self.a, self.ctx, self.sv, self.tag = kind, flags, a, ctx, sv, tag
         self.table: dict = {}
         self.info = None
         self.spec = None  # answer of the spec with error name
+        self.hints = ()   # (sig, pubkey, scriptCode, sv) the generator expects the spec to ask about: answered before the first round
 
     def txinfo(self) -> TxInfo:
         if self.info is None:
@@ -368,6 +373,11 @@ def resolve(cases: list) -> None:
     """run the spec on every case, answering its `need` requests with the signature oracle until none is left;
     afterwards case.spec is `ok …` / `fail NAME` / `precondition` and case.table is complete"""
     pending = [c for c in cases if c.spec is None]
+    for c in pending:
+        for sig, pk, code, sv in c.hints:
+            k = (hx(sig), hx(pk), hx(code), sv)
+            if k not in c.table:
+                c.table[k] = c.txinfo().check_sig(sig, pk, code, sv)
     for _round in range(80):
         if not pending:
             return
